@@ -11,7 +11,7 @@ import (
 func (x *extState) verifyStart(c *checker, s *server, key instKey, e *sim.Ev) {
 	for _, v := range x.verByInst[key] {
 		if !v.started && !v.call.returned {
-			v.started, v.quorum, v.term = true, int(e.A), e.B
+			v.started, v.quorum, v.term, v.startSeq = true, int(e.A), e.B, e.Seq
 			_, lc := s.disk.latestLogCfg()
 			if lc == "" {
 				if sn := s.disk.newest(); sn != nil {
@@ -25,10 +25,35 @@ func (x *extState) verifyStart(c *checker, s *server, key instKey, e *sim.Ev) {
 	}
 }
 
+type recentAck struct {
+	peer string
+	term uint64
+	t    int64
+}
+
+// acksAtInstant: acknowledgements the transport handed to the leader at the
+// same virtual instant as the call but before it in the log: the replication
+// goroutine may deliver them to the verification after it was registered (no
+// virtual time can pass in between).
+func (x *extState) acksAtInstant(v *verifyOp) {
+	for _, a := range x.recent[v.key] {
+		if a.t == v.call.invT {
+			v.acks[a.peer] = true
+			v.stale[a.peer] = true
+			v.preTerm = a.term
+		}
+	}
+}
+
 func (x *extState) verifyRecv(c *checker, r *rpcRec, e *sim.Ev) {
 	if (r.kind != "ae" && r.kind != "is") || e.B != 1 {
 		return
 	}
+	lst := x.recent[r.from]
+	if len(lst) > 0 && lst[0].t != e.T {
+		lst = lst[:0]
+	}
+	x.recent[r.from] = append(lst, recentAck{peer: r.to, term: r.term, t: e.T})
 	for _, v := range x.verByInst[r.from] {
 		if v.call.returned || r.term != v.term && v.started {
 			continue
@@ -55,6 +80,17 @@ func (x *extState) verifyReturned(c *checker, cl *call, e *sim.Ev) {
 		return
 	}
 	c.cov("verify-ok")
+	if !v.started {
+		// two calls issued concurrently may be taken up in the other order: take
+		// over the round that was attributed to a sibling still waiting
+		for _, o := range x.verByInst[cl.inst] {
+			if o != v && o.started && !o.call.returned && o.startSeq > cl.invSeq {
+				v.started, v.quorum, v.term, v.voters, v.startSeq = true, o.quorum, o.term, o.voters, o.startSeq
+				o.started = false
+				break
+			}
+		}
+	}
 	if !v.started {
 		c.violate("C09", "verify-ok-never-started", e.Seq, "VerifyLeader on %s returned nil but the leader never started a verification round for it", cl.inst)
 		return
@@ -118,6 +154,21 @@ func (x *extState) nemesisExt(c *checker, e *sim.Ev) {
 			if !p.healed {
 				p.healed, p.t1 = true, e.T
 				x.pvDone = append(x.pvDone, p)
+				// who leads the majority side right now?
+				for i := len(c.leadLog) - 1; i >= 0; i-- {
+					l := c.leadLog[i]
+					if !l.ended && x.pvIso[l.key.s] == nil {
+						p.leaderAtHeal, p.termAtHeal = l.key.s, l.term
+						break
+					}
+				}
+				s := c.server(p.name)
+				p.clusterTermAtHeal = s.maxTerm
+				if p.leaderAtHeal != "" {
+					li, lt := s.disk.lastEntry()
+					Li, Lt := c.server(p.leaderAtHeal).disk.lastEntry()
+					p.eligible = s.maxTerm <= p.termAtHeal && !(lt > Lt || (lt == Lt && li > Li))
+				}
 			}
 		}
 		x.pvIso = map[string]*pvIso{}
@@ -197,6 +248,31 @@ func (x *extState) pvTerm(c *checker, s *server, key instKey, old, nw uint64, e 
 }
 
 func (x *extState) pvState(c *checker, s *server, key instKey, old, nw int, term uint64, e *sim.Ev) {}
+
+// pvRead: the reading taken 5 election timeouts after the heal.
+func (x *extState) pvRead(c *checker, s *server, e *sim.Ev) {
+	for _, p := range x.pvDone {
+		if p.name != s.name || p.checked || !p.healed {
+			continue
+		}
+		p.checked = true
+		if !p.eligible {
+			c.cov("pv-reconnect-not-eligible")
+			continue
+		}
+		c.cov("pv-reconnect-checked")
+		// no new leader and no term change on the majority side since the heal
+		for _, l := range c.leadLog {
+			if l.t > p.t1 && l.t <= e.T {
+				c.violate("C14", "reconnect-forces-election", e.Seq, "%s (log not ahead, term %d <= %d) reconnected at t=%dms and %s became leader of term %d at t=%dms; the healthy leader was %s", p.name, p.clusterTermAtHeal, p.termAtHeal, p.t1/1e6, l.key, l.term, l.t/1e6, p.leaderAtHeal)
+				return
+			}
+		}
+		if int(e.B) != Follower || e.Y != p.leaderAtHeal || e.A != p.termAtHeal {
+			c.violate("C14", "reconnect-not-follower", e.Seq, "%s reconnected at t=%dms; five election timeouts later it reports state %d, leader %q, term %d (expected follower of %s in term %d)", p.name, p.t1/1e6, e.B, e.Y, e.A, p.leaderAtHeal, p.termAtHeal)
+		}
+	}
+}
 
 func (x *extState) finishPV(c *checker) {
 	for _, p := range x.pvDone {
